@@ -303,15 +303,35 @@ def c20_units(tier):
         Unit("attach", hs, "zzC20_Attach", dict(STUB, only="C20/"), bounds="store of 3 items + pruned id AAAAAA; set result.path/result.summary on ANY id with arbitrary strings; validateResultPath / captureResultEvidence succeed or fail symbolically (L1 stubs)"),
         Unit("compact", hs5, "zzC05_Compact_N2", {"loop": 40, "rec": 4, "only": "C20/"}, bounds="store of 2 items, 1 result per task, compacted by the real compactEvents and replayed"),
     ]
+    fb = {"loop": 16, "rec": 3, "only": "C20/", "stubs": "path/filepath.Clean=zzCleanModel"}
+    us.append(Unit("path-confined-bytes", hs, "zzC20_PathConfined_L9", fb, note="filepath.Clean replaced by zzCleanModel, a static-memory port compared natively with the library on ~960 000 strings (clean-model self test)",
+                   bounds="byte mode: ANY path of <=9 bytes over the alphabet {/ . e r g o a}; os.Stat answers arbitrarily except that the project root is a directory; real validateResultPath; independent component-wise oracle on the raw text"))
     if tier == "thorough":
         us.append(Unit("compact-n3", hs5, "zzC05_Compact_N3", {"loop": 96, "rec": 4, "_wall": 7000, "only": "C20/"}, bounds="store of 3 items, 2 results per task"))
     return us
 
 
+def c20_post(results, violations, known_hits, inconclusive, samples):
+    """Native validation of the Clean model used by the byte-level unit."""
+    from .runner import Replayer
+    import json as _json, os as _os, tempfile as _tf
+    hs = ["intrinsics.go", "world_native.go", "fs_native.go", "common.go"] + HSCMD + ["c20.go"]
+    rp = Replayer(hs, ["zzC20_CleanModelSelfTest"])
+    sc = _os.path.join(_tf.mkdtemp(prefix="zzscen-"), "s.json")
+    _json.dump({"values": {}, "meta": {}}, open(sc, "w"))
+    rr = rp.run("zzC20_CleanModelSelfTest", sc)
+    rp.close()
+    ok = rr.get("ok") and not rr.get("failed") and not rr.get("panic")
+    samples.append({"clean_model_self_test": "agrees with path/filepath.Clean on every string of <=7 bytes over the alphabet" if ok else "FAILED", "raw": (rr.get("raw") or rr.get("err") or "")[-400:]})
+    if not ok:
+        inconclusive.append({"unit": "path-confined-bytes", "why": "clean-model self test failed: the model of filepath.Clean disagrees with the library: " + (rr.get("raw") or rr.get("err") or "")[-300:]})
+
+
 reg("C20", c20_units,
     "bounded symbolic model checking of (a) the data flow of validateResultPath: every lexical rule is applied to the CLEANED path, the cleaned path is what is stat'ed below the project root and what is recorded, missing files and directories are refused (strings as atoms, Clean/IsAbs/Join/HasPrefix/Contains uninterpreted, os.Stat symbolic); (b) one arbitrary event through the real replay loop body from an arbitrary store: only a result event changes a Results list, by prepending exactly one entry (inductive step: results are never dropped, duplicated, reordered or altered by later commands); (c) attach through set only to a live task; (d) compaction preserves the lists.",
-    ["NOT decided: that the lexical rules on the cleaned path imply confinement for every byte string (needs filepath.Clean at byte level: the engine's address-union representation blew up on lazybuf, see DESIGN); sha256 = hash of the file content (crypto/sha256 not encodable); file_url derivation (net/url); symlinks (kernel path resolution)",
-     "L1 stubs: validateResultPath / captureResultEvidence in the attach unit succeed or fail symbolically; the path-rules unit runs the real validateResultPath over an os.Stat stub"])
+    ["NOT decided: sha256 = hash of the file content (crypto/sha256 not encodable); file_url derivation (net/url); symlinks (kernel path resolution)",
+     "L1 stubs: validateResultPath / captureResultEvidence in the attach unit succeed or fail symbolically; the path-rules unit runs the real validateResultPath over an os.Stat stub",
+     "byte-level unit: filepath.Clean is library code and is replaced by zzCleanModel (harness/c20.go), validated natively against the library on every string of <=7 bytes over the alphabet on each run; paths longer than 9 bytes or with other bytes are outside the claim (the rules only distinguish '/', '.', and the letters of '.ergo')"], post=c20_post)
 
 
 # ---------------------------------------------------------------- C18
